@@ -348,6 +348,15 @@ def run_property(pid, tier="quick", seed=0):
     random.Random(seed).shuffle(hs)
     scratch = tempfile.mkdtemp(prefix="basic-verif-%s-" % pid)
     known = load_known()
+    if tier == "thorough" and any(h["mode"] == "vshim" for h in hs) and not os.environ.get("VERIF_ONLY"):
+        # translator validation: the repository's own tests must pass on the shimmed build, otherwise nothing is reported
+        from . import validate
+        ok, passed, failed, fails, out = validate.run()
+        log("[%s] container-model validation: %d repo tests passed, %d failed on the shimmed build" % (pid, passed, failed))
+        if not ok:
+            log("INCONCLUSIVE %s: the bounded container models no longer pass the repository's tests: %s" % (pid, ", ".join(fails[:5])))
+            shutil.rmtree(scratch, ignore_errors=True)
+            return 2
     try:
         digests = {}
         for h in hs:
